@@ -1,0 +1,26 @@
+//go:build verif
+
+package receiver
+
+// VerifPending returns the instances for which a downloaded and decoded
+// snapshot is waiting to be handed to the sync loop (verification builds only).
+func (r *Receiver) VerifPending() map[string]string {
+	r.mu.Lock()
+	defer r.mu.Unlock()
+	out := make(map[string]string, len(r.snapshotsByInstance))
+	for inst, u := range r.snapshotsByInstance {
+		out[inst] = u.NameInfo.FullName
+	}
+	return out
+}
+
+// VerifCorrupt returns the names marked as corrupt so far.
+func (r *Receiver) VerifCorrupt() []string {
+	r.mu.Lock()
+	defer r.mu.Unlock()
+	var out []string
+	for n := range r.corruptSnapshots {
+		out = append(out, n)
+	}
+	return out
+}
